@@ -196,7 +196,10 @@ func (s *Server) handleUploadPack(w http.ResponseWriter, r *http.Request) {
 			s.fail(w, 400, "%v", err)
 			return
 		}
-		if len(acks) > 0 && !req.Done {
+		// negotiation goes on while the finder still holds wants it could not close (it postpones
+		// a want whose walk reached a root although common commits exist and the client is not
+		// done); the acknowledgements of this round - possibly none - are reported meanwhile
+		if len(s.finder.Wants) > 0 && !req.Done {
 			w.Header().Set("Content-Type", ctJSON)
 			json.NewEncoder(w).Encode(&payload.UploadPackResponse{ACKs: payload.BytesSliceToHexSlice(acks)})
 			return
